@@ -17,6 +17,7 @@ type Config struct {
 	Unwind     int
 	Preempt    int // context-switch (pre-emption) bound
 	MaxThreads int
+	Merge      bool // if-conversion of pure diamonds (state merging)
 }
 
 func defaultConfig() Config {
@@ -86,6 +87,9 @@ type Machine struct {
 	side         map[interface{}]interface{}
 	replayModel  map[string]uint64 // when set: concrete replay, nondets take these values
 	wantSample   bool
+	spec         int // >0 while speculatively executing a pure region
+	noIfConv     bool
+	merges       int
 
 	// threads
 	threads     []*Thread
@@ -128,6 +132,7 @@ func (m *Machine) resetPath(prefix []int) {
 	m.overApprox = false
 	m.sharedFields = map[string]bool{}
 	m.mapOrderAll = false
+	m.noIfConv = !m.cfg.Merge
 	m.side = map[interface{}]interface{}{}
 	m.threads = nil
 	m.cur = nil
@@ -203,6 +208,9 @@ func (m *Machine) decide(n int, feas func(i int) bool) int {
 func (m *Machine) branch(c *Term) bool {
 	if c.IsConst() {
 		return c.C == 1
+	}
+	if m.spec > 0 {
+		panic(specAbort{})
 	}
 	if m.replayModel != nil {
 		v := m.evalConcrete(c)
@@ -370,6 +378,13 @@ func (m *Machine) assertTerm(c *Term, label, pos string) {
 			m.recordViolation("assert", label, pos, m.replayModel)
 			panic(pathStop{kind: "violation", why: label})
 		}
+		return
+	}
+	if len(m.taken) < len(m.prefix) {
+		// still replaying the parent's prefix: this assertion was decided on the
+		// parent path under the identical path condition
+		m.asserts--
+		m.addPC(c)
 		return
 	}
 	neg := m.tt.Not(c)
